@@ -204,6 +204,12 @@ func (s *Server) newPartition(protoPartition *proto.Partition, recovered bool, c
 		return nil, errors.Wrap(err, "failed to create commit log")
 	}
 
+	// If we're loading a partition that was readonly, e.g. from a snapshot or
+	// when resuming it, the new commit log needs to be readonly too.
+	if protoPartition.Readonly {
+		log.SetReadonly(true)
+	}
+
 	replicas := make(map[string]struct{}, len(protoPartition.Replicas))
 	for _, replica := range protoPartition.Replicas {
 		replicas[replica] = struct{}{}
